@@ -130,4 +130,5 @@ def r3(ctx, R):
         c = next(c for n, c in f.calls("self._notify_message_received"))
         args = [f.expand_text(x, nots[0]) for x in c.args]
         want = ["(await self._read_one_message())[0]", "(await self._read_one_message())[1]"]
-        ctx.check(args == want and not c.keywords, R, "_read:delivers-what-was-read", m, c, f"header and message delivered are the two components unpacked from the result of this read ({var})", ", ".join(args))
+        star = len(c.args) == 1 and isinstance(c.args[0], ast.Starred) and f.expand_text(c.args[0].value, nots[0]) in ("await self._read_one_message()", "(await self._read_one_message())")
+        ctx.check((args == want or star) and not c.keywords, R, "_read:delivers-what-was-read", m, c, f"header and message delivered are the two components unpacked from the result of this read ({var})", ", ".join(args))
